@@ -358,3 +358,26 @@ fn witness_c18_eg() {
     c18_eg();
     assert!(false, "vacuity witness");
 }
+
+/// C06: player_is_in_checkmate depends on nothing but "no legal move" and "in check" -- in particular not on
+/// the half-move clock or the repetition bookkeeping (all counter values symbolic here)
+fn c06_checkmate(white: bool) {
+    let x = any_disjoint();
+    let a = any_aux(crate::verif_ref::vany());
+    let mut board = Board::verif_from_raw(&x, &a);
+    let att: u64 = crate::verif_ref::vany();
+    let empty: bool = crate::verif_ref::vany();
+    gstub::reset(empty, att);
+    let mut mg = blank_generator();
+    let cm = player_is_in_checkmate(&mut board, &mut mg, color(white));
+    let check = att & x.own(white)[rf::K] != 0;
+    assert!(cm == (empty && check), "checkmate <=> in check and no legal move, whatever the clocks and repetition counts say");
+    unsafe {
+        assert!(gstub::GEN_PLAYER_WHITE == white && gstub::GEN_OCC == x.occ(), "legal moves requested for the player asked about, on this board");
+        assert!(gstub::ATT_PLAYER_WHITE == !white, "attack map requested for the opponent");
+    }
+    core::mem::forget(mg);
+    core::mem::forget(board);
+}
+gen_stubbed!(c06_checkmate_w, 8, c06_checkmate(true));
+gen_stubbed!(c06_checkmate_b, 8, c06_checkmate(false));
